@@ -373,6 +373,17 @@ def build_objs(ant):
                 w.segtype = o['segtype']
             gs.append(w)
     from mininec.mininec import ideal_ground
+    if any(o.get('translate') for o in ant['objs']):
+        # objects moved into place through the API (`Geo_Container.translate`, what `--geo-translate=key,x,y,z,tag` does)
+        from mininec.mininec import Geo_Container
+        geo = Geo_Container()
+        for g in gs:
+            geo.append(g)
+        geo.compute_tags()
+        for k, (o, g) in enumerate(zip(ant['objs'], gs)):
+            if o.get('translate'):
+                geo.translate(k + 1, [float(x) for x in o['translate']], g.tag)
+        gs = geo
     return _mk(ant, ant['f'], gs, media=[ideal_ground] if ant.get('ground') else None)
 
 
